@@ -607,6 +607,11 @@ func runC19(cfg *runCfg) error {
 		var sb strings.Builder
 		printBlocks(blocks, "", &sb)
 		src := sb.String()
+		if cr.chance(15) {
+			// the same text with the line endings of another platform
+			src = strings.ReplaceAll(src, "\n", "\r\n")
+			feats["source with CRLF line endings"]++
+		}
 		var want []xBlock
 		expectBlocks(blocks, &want)
 		res.Evaluations++
